@@ -6,9 +6,9 @@ from contracts.agg_common import A, BASE_CALLS, TYPES, logged, noop
 
 PROP = "C30"
 CALLS = dict(BASE_CALLS, **{
-    "plot_log_repo.create_plot_log": logged("create_plot_log"),
-    "recent_run_repo.store_recent_run": logged("store_recent_run"),
-    "repo.store_recent_engine": logged("store_recent_engine"),
+    "*.create_plot_log": logged("create_plot_log"),
+    "*.store_recent_run": logged("store_recent_run"),
+    "*.store_recent_engine": logged("store_recent_engine"),
     "self.publish_engine_disconnected_notification": noop,
 })
 
@@ -94,7 +94,7 @@ def store_at_call(key):
     return h
 
 
-CALLS_STOP = dict(CALLS, **{"recent_run_repo.store_recent_run": store_at_call("store_recent_run")})
+CALLS_STOP = dict(CALLS, **{"*.store_recent_run": store_at_call("store_recent_run")})
 
 CONTRACTS = [
     Contract(target=A + "FromEngine.run_started", types=TYPES, calls=CALLS, raises={}, on_exit=run_started_exit),
